@@ -36,7 +36,20 @@ func (n *Normalized) CanonVars() map[string]any {
 // Normalize runs the admission sequence of ExecutionEngine.Execute on exported API: Normalize (Execute option
 // set) → ValidateForSchema → Normalize(ExtractVariables) → VariablesMapper. stage names the failing step.
 func Normalize(schema *graphql.Schema, op opgen.Op) (*Normalized, string, error) {
-	req := graphql.Request{Query: op.Query, OperationName: op.OperationName}
+	n, _, stage, err := NormalizeRequest(schema, op)
+	return n, stage, err
+}
+
+// NormalizeRequest is Normalize that also returns the normalized request (its document is
+// what the engine hands to the planner).
+func NormalizeRequest(schema *graphql.Schema, op opgen.Op) (*Normalized, *graphql.Request, string, error) {
+	req := &graphql.Request{Query: op.Query, OperationName: op.OperationName}
+	n, stage, err := normalizeInto(schema, op, req)
+	return n, req, stage, err
+}
+
+func normalizeInto(schema *graphql.Schema, op opgen.Op, reqp *graphql.Request) (*Normalized, string, error) {
+	req := reqp
 	if v := op.VarsJSON(); v != "" {
 		req.Variables = []byte(v)
 	}
